@@ -226,7 +226,7 @@ namespace
     for(int v = 0; v < 2; ++v)
     {
       typedef SaddlePointMatrix<CSR, CSR, CSR> M;
-      const int ra = v ? 2 : 1, ca = v ? 1 : 2, cb = v ? 3 : 4, rd = v ? 4 : 3;
+      const int ra = v ? 1 : 2, ca = v ? 2 : 1, cb = v ? 4 : 3, rd = v ? 3 : 4; // rows(A) > columns(A) first: offset mix-ups give wrong values, not aborts
       Layout L; L.name = "SaddlePointMatrix<A" + std::to_string(ra) + "x" + std::to_string(ca) + ",B" + std::to_string(ra) + "x" + std::to_string(cb) + ",D" + std::to_string(rd) + "x" + std::to_string(ca) + ">";
       L.m = ra + rd; L.n = ca + cb; L.block(0, ra, 0, ca); L.block(0, ra, ca, ca + cb); L.block(ra, ra + rd, 0, ca);
       enum_meta<DT, IT, M, true>(c, L,
@@ -237,7 +237,7 @@ namespace
     for(int v = 0; v < 2; ++v)
     {
       typedef SaddlePointMatrix<CSR, CSR, CSR> M;
-      const int ra = v ? 2 : 1, ca = v ? 1 : 2, cb = v ? 2 : 1, rd = v ? 1 : 2;
+      const int ra = v ? 1 : 2, ca = v ? 2 : 1, cb = v ? 1 : 2, rd = v ? 2 : 1;
       Layout L; L.name = "SaddlePointMatrix<A" + std::to_string(ra) + "x" + std::to_string(ca) + ",B" + std::to_string(ra) + "x" + std::to_string(cb) + ",D" + std::to_string(rd) + "x" + std::to_string(ca) + ">";
       L.m = ra + rd; L.n = ca + cb; L.block(0, ra, 0, ca); L.block(0, ra, ca, ca + cb); L.block(ra, ra + rd, 0, ca);
       enum_meta<DT, IT, M, true>(c, L,
